@@ -174,13 +174,22 @@ def step (d : DSt) (j : Json) : DSt × List String :=
     let dummy : Tx := { ref := 0, alg := "", payloadHash := 0, cty := "", jwk := false, kid := "", sigt := 0, ver := 0, prevs := [], pal := [], clock := 0 }
     let calls : List Call := cds.map fun c => { tx := (match c.tx with | .ok t => t | _ => dummy), payload := c.payload }
     let pcs : List PC := cds.map fun c => match c.tx with | .ok _ => PC.start | .err e => .done (.err e) | .panic p => .done (.panic p)
-    let w := run env d.subs calls (jNats j "sched") { st := d.st, pcs := pcs }
+    let w0 : World := { st := d.st, pcs := pcs }
+    -- step by step, observing after every step when asked to
+    let (w, d, mids) := (jNats j "sched").foldl (fun (acc : World × DSt × List String) i =>
+      let (w, d, mids) := acc
+      let w' := stepThread env d.subs calls w i
+      if jBool j "obs" then
+        let (d', o) := observe { d with st := w'.st }
+        (w', d', mids ++ [o])
+      else (w', d, mids)) (w0, d, [])
     -- complete unfinished threads in thread order (the harness does the same)
     let n := calls.length
     let w := run env d.subs calls ((List.range n).flatMap fun i => [i, i]) w
     let res := w.pcs.map fun pc => match pc with | .done r => resCls r | .start => "start" | .verified => "verified"
     let (d, o) := observe { d with st := w.st }
-    (d, [s!"res={String.intercalate "," res} | {o}"])
+    let pre := if jBool j "obs" then "mid=" ++ String.intercalate " ;; " mids ++ " || " else ""
+    (d, [s!"{pre}res={String.intercalate "," res} | {o}"])
   | o => (d, ["bad-op:" ++ o])
 
 end Nuts.Drv.C06
